@@ -142,11 +142,12 @@ func renderPgn(games []bookGame) string {
 			}
 			switch (gi + i) % 4 {
 			case 0:
-				mv.WriteString(" {a comment with e4 and Nf3 inside\ncontinued on a second line with d4}")
+				// (comments may contain parentheses: an opening one here, the closing one in the next such comment)
+				mv.WriteString([]string{" {a comment with e4 (and Nf3 inside\ncontinued on a second line with d4}", " {see above) and a4 :)}"}[(i/4)%2])
 			case 1:
 				mv.WriteString(" $1")
 			case 2:
-				mv.WriteString(" (1... a6 2. a3 (2. h3 h6) 2... b6)")
+				mv.WriteString(" (1... a6 {option a) is natural} 2. a3 (2. h3 h6) 2... b6)")
 			}
 			if i == 1 {
 				mv.WriteString(" ; rest of line comment e2e4\n")
